@@ -175,6 +175,6 @@ class E2(Component):
         return case
 
 
-from .c02 import Dense  # noqa: E402  (dense all-subsets tables: completeness is asserted there too)
+from .c02 import Bundled, Dense  # noqa: E402  (completeness is asserted by these components too)
 
-COMPONENTS = [Random(), E1(), E2(), Dense()]
+COMPONENTS = [Random(), E1(), E2(), Dense(), Bundled()]
